@@ -1,6 +1,9 @@
 /-
   Model of `pkg/trafficrouting/network/gateway/gateway.go` (Gateway API provider).
   Core Lean only.  Every function names the Go function it transcribes.
+  The model follows /repo's working tree *with* fixes/C13-1..4.patch applied (defects
+  #4, #5, #6 and the match-less stable rule); the as-is transcription that reproduced the
+  defects is commit 457c0f2 of this branch.
 
   Abstraction:  an HTTPRoute is its list of rules.  A rule is
   (matches, filters, backendRefs); `filters` and the parts of a backendRef the
@@ -91,14 +94,17 @@ def filterOut (refs : List Ref) (name : String) : List Ref :=
   | none => refs
   | some (idx, _) => refs.eraseIdx idx
 
+/-- `if stableRef != nil { stableRef.Weight = 1; setServiceBackendRef(&rule, *stableRef) }` -/
+def resetStable (c : Conf) (refs : List Ref) : List Ref :=
+  match getRef refs c.stable with
+  | some (_, s) => setRef refs { s with weight := some 1 }
+  | none => refs
+
 /-- body of the `weight == -1` loop of `buildDesiredHTTPRoute`; `none` = rule dropped
     (only a rule whose single backend was the canary Service, i.e. a generated rule). -/
 def finaliseRule (c : Conf) (rule : Rule) : Option Rule :=
   let hadCanary := (getRef rule.refs c.canary).isSome
-  let refs1 := filterOut rule.refs c.canary
-  let refs2 := match getRef refs1 c.stable with
-    | some (_, s) => setRef refs1 { s with weight := some 1 }
-    | none => refs1
+  let refs2 := resetStable c (filterOut rule.refs c.canary)
   if hadCanary && refs2.length == 0 then none else some { rule with refs := refs2 }
 
 def finaliseRules (c : Conf) (rules : List Rule) : List Rule :=
@@ -176,20 +182,20 @@ def headerLoop (c : Conf) (nonPath : List UMatch) :
     | some rule =>
       match getRef rule.refs c.stable with
       | none =>
-        let (d, cs) := headerLoop c nonPath pm rest
-        (rule :: d, cs)
+        let tl := headerLoop c nonPath pm rest
+        (rule :: tl.1, tl.2)
       | some (_, stableRef) =>
-        let (d, cs) := headerLoop c nonPath [] rest         -- pathMatches = nil
+        let tl := headerLoop c nonPath [] rest              -- pathMatches = nil
         match canaryRuleFor c nonPath pm rule stableRef with
-        | none => (rule :: d, cs)
-        | some k => (rule :: d, k :: cs)
+        | none => (rule :: tl.1, tl.2)
+        | some k => (rule :: tl.1, k :: tl.2)
 
 /-- `buildCanaryHeaderHttpRoutes` -/
 def buildHeader (c : Conf) (rules : List Rule) (ms : List UMatch) : List Rule :=
   let pathMs := ms.filter (fun u => u.path.isSome)
   let nonPath := ms.filter (fun u => u.path.isNone)
-  let (d, cs) := headerLoop c nonPath pathMs rules
-  d ++ cs
+  let res := headerLoop c nonPath pathMs rules
+  res.1 ++ res.2
 
 /-- `buildDesiredHTTPRoute` -/
 def buildDesired (c : Conf) (rules : List Rule) (w : Option Int) (ms : List UMatch) : Out :=
@@ -247,5 +253,10 @@ def finalise (c : Conf) (store : Option (List Rule)) : CallRes :=
     | .ok desired =>
       if rules == desired then { ret := false, err := "ok", store := some rules }
       else { ret := true, err := "ok", store := some desired }
+
+/-- the stored route after `EnsureRoutes` has been called for each step in turn
+    (a call that panics or does not find the route leaves the store as it is) -/
+def runSteps (c : Conf) (store : Option (List Rule)) (steps : List Step) : Option (List Rule) :=
+  steps.foldl (fun st s => (ensureRoutes c st s).store) store
 
 end RV.Gateway
